@@ -8,6 +8,7 @@ import (
 	"context"
 	"encoding/json"
 	"fmt"
+	"math/big"
 	"sort"
 	"time"
 
@@ -23,8 +24,27 @@ type Inner struct {
 	L []float64         `json:"l"`
 }
 
+// PtrCodec has its JSON codec on the pointer receiver (like math/big.Int):
+// it is only honoured when the value is addressable while being encoded.
+type PtrCodec struct{ V string }
+
+func (p *PtrCodec) MarshalJSON() ([]byte, error) { return json.Marshal("pc:" + p.V) }
+func (p *PtrCodec) UnmarshalJSON(b []byte) error {
+	var s string
+	if err := json.Unmarshal(b, &s); err != nil {
+		return err
+	}
+	if len(s) < 3 || s[:3] != "pc:" {
+		return fmt.Errorf("PtrCodec: bad encoding %q", s)
+	}
+	p.V = s[3:]
+	return nil
+}
+
 type Entity struct {
 	ID    string         `json:"id"`
+	PC    PtrCodec       `json:"pc"`  // by value, codec on the pointer receiver
+	Big   big.Int        `json:"big"` // by value, codec on the pointer receiver
 	Name  string         `json:"name"`
 	I64   int64          `json:"i64"`
 	U64   uint64         `json:"u64"`
@@ -62,6 +82,9 @@ type RTCase struct {
 
 func entityOf(r RT) Entity {
 	e := Entity{ID: r.Key, Name: r.Name, I64: r.I64, U64: r.U64, F: r.F, B: r.I64%2 == 0}
+	e.PC = PtrCodec{V: r.Name}
+	e.Big.SetUint64(r.U64)
+	e.Big.Mul(&e.Big, &e.Big)
 	e.In = Inner{X: int(r.I64 % 1000), L: []float64{r.F, 0.5}}
 	if r.EmptyMap {
 		e.In.M = map[string]string{}
@@ -195,7 +218,7 @@ func RunRT(c *RTCase) *vkit.Outcome {
 			case state.OperationDelete:
 				delete(model, mk{tn, r.Key})
 			default:
-				b, _ := json.Marshal(e)
+				b, _ := json.Marshal(&e)
 				model[mk{tn, r.Key}] = string(b)
 			}
 		} else {
@@ -297,7 +320,7 @@ func RunRT(c *RTCase) *vkit.Outcome {
 			o.Failf("", "entity type %q key %q is missing after the round trip", k.t, k.k)
 			return o
 		}
-		b, _ := json.Marshal(got)
+		b, _ := json.Marshal(&got)
 		if !vkit.JSONEqual(b, []byte(want)) {
 			o.Failf("", "entity type %q key %q came back as %s, sent %s", k.t, k.k, b, want)
 			return o
